@@ -335,7 +335,7 @@ def run(ctx):
     ctx.exhaustive = True
     rnd = random.Random(ctx.seed * 7919 + 9)
     num = Num(rnd.getrandbits(16), 11)
-    n = 60 if quick else 600
+    n = 60 if quick else 3000
     sa, ma = SetAdapter(m, num), MapAdapter(m, num)
     st = split_failed([record(sa, set_ops(rnd, 11, 60)) for _ in range(n)], ctx, "SortedSet", sig_fn)
     tracecheck.check_traces(SSET, model.constants_block({"MaxV": 11, "MaxInit": 3, "Dedup": "TRUE"}), st, ctx, "SortedSet",
